@@ -26,7 +26,9 @@ RULE = ('(a) every registered definition x every visible parameter position '
         'containers of sizes N-1, N, N+1; (c) pipeline templates over endless '
         'sources; (d) Hypothesis: grow chains (concatenation, repetition with '
         'counts up to 10**12, join, replace, aggregate, accumulate, toList/'
-        'toDict/groupBy/distinct/memorize/generate) under quota Q. '
+        'toDict/groupBy/distinct/memorize/generate; integers grown by pow, '
+        'shifts, repeated squaring and products, or supplied as data) under '
+        'quota Q. '
         'non-trivial: sweep = payload entered with the source bound or the '
         'source pulled at least once; shapes = some container size in {N, '
         'N+1}; quota = predicted size of some intermediate > Q/2; distinct = '
